@@ -660,43 +660,35 @@ theorem appendEntries_spec (P : Params) (hc : 0 < P.chunk) (s : Prop) :
 
 def lossTail (P : Params) (tail : Bytes) : Bytes := if P.lossless then tail else []
 
-/-- When may `appendTar` start on `w`: its two fresh locals are right (`MinChunkSize = 0`: they
-are never read; otherwise nothing was written yet). -/
-def StartOK (P : Params) (w : W) : Prop := P.minChunk = 0 ∨ (w.cur = none ∧ w.uncN = 0)
-
-theorem startOK_spill {P : Params} {w : W} (h : StartOK P w) : StartOK P (spillGz w) := by
-  rcases h with h | ⟨h1, h2⟩
-  · exact Or.inl h
-  · right
-    unfold spillGz flushGz
-    simp [h1, h2]
-
-theorem spillGz_toc (w : W) : (spillGz w).toc = w.toc := by
-  unfold spillGz flushGz
-  cases hc : w.cur <;> simp
-
-theorem startOK_linv {P : Params} {w : W} (h : StartOK P w) : LInv P w ⟨w.cwN, 0⟩ := by
-  rcases h with h | ⟨h1, h2⟩
-  · exact Or.inl h
-  · right; simp [h1, h2]
+theorem linv_closeGz (P : Params) (w : W) :
+    LInv P (closeGz w) ⟨(closeGz w).cwN, (closeGz w).uncN⟩ := by
+  right
+  have hc : (closeGz w).cur = none := by
+    unfold closeGz
+    cases h : w.cur <;> simp [h]
+  rw [hc]
+  exact ⟨rfl, rfl⟩
 
 theorem appendTar_spec (P : Params) (hc : 0 < P.chunk) (w w' : W) (ents : List TarEnt) (tail : Bytes)
-    (s : Prop) (hinv : Inv w) (hs : s → StartOK P w) (h : appendTar P w ents tail = some w') :
+    (s : Prop) (hinv : Inv w) (h : appendTar P w ents tail = some w') :
     Tr w w' (tarStream ents ++ lossTail P tail) ∧
     (P.lossless = true → ∀ e ∈ ents, e.isToc = false) ∧
     ∃ gs, w'.toc = w.toc ++ gs.flatten ∧ Forall2 EntryToc (keep ents) gs ∧
       (s → AllGood w'.view ents gs.flatten) := by
   unfold appendTar at h
-  have hsp : Tr w (spillGz w) [] := flushGz_tr hinv
-  cases h1 : appendEntries P (spillGz w, ⟨(spillGz w).cwN, 0⟩) ents with
+  have hsp : Tr w (closeGz w) [] := closeGz_tr hinv
+  have hct : (closeGz w).toc = w.toc := by
+    unfold closeGz
+    cases hcur : w.cur <;> simp
+  cases h1 : appendEntries P (closeGz w, ⟨(closeGz w).cwN, (closeGz w).uncN⟩) ents with
   | none => simp [h1] at h
   | some st =>
     obtain ⟨w1, loc1⟩ := st
     simp only [h1] at h
     obtain ⟨htr, _, hlos, gs, htoc, hfa, hag⟩ :=
-      appendEntries_spec P hc s ents (spillGz w) _ w1 loc1 hsp.inv
-        (fun h => startOK_linv (startOK_spill (hs h))) h1
-    rw [spillGz_toc] at htoc
+      appendEntries_spec P hc s ents (closeGz w) _ w1 loc1 hsp.inv
+        (fun _ => linv_closeGz P w) h1
+    rw [hct] at htoc
     have htr : Tr w w1 (tarStream ents) := by simpa using Tr.trans hsp htr
     by_cases hw : P.lossless = true ∧ tail ≠ []
     · simp only [hw, ne_eq, not_false_eq_true, and_self, if_true] at h
@@ -737,8 +729,7 @@ theorem forall2_append {α β : Type} {R : α → β → Prop} {a a' : List α} 
   | cons hr _ ih => exact Forall2.cons hr ih
 
 theorem appendTars_spec (P : Params) (hc : 0 < P.chunk) (s : Prop) :
-    ∀ (calls : List (List TarEnt × Bytes)) (w w' : W), Inv w → (s → StartOK P w) →
-      (s → P.minChunk = 0 ∨ calls.length ≤ 1) → appendTars P w calls = some w' →
+    ∀ (calls : List (List TarEnt × Bytes)) (w w' : W), Inv w → appendTars P w calls = some w' →
       Tr w w' (callStream P calls) ∧
       (P.lossless = true → ∀ e ∈ callEnts calls, e.isToc = false) ∧
       ∃ gs, w'.toc = w.toc ++ gs.flatten ∧ Forall2 EntryToc (keep (callEnts calls)) gs ∧
@@ -746,61 +737,37 @@ theorem appendTars_spec (P : Params) (hc : 0 < P.chunk) (s : Prop) :
   intro calls
   induction calls with
   | nil =>
-    intro w w' hinv _ _ h
+    intro w w' hinv h
     simp [appendTars] at h
     subst h
     refine ⟨by simpa [callStream] using Tr.rfl' hinv, by simp [callEnts], [], by simp, ?_, ?_⟩
     · simpa [callEnts] using Forall2.nil
     · intro _ x hx; simp at hx
   | cons c cs ih =>
-    intro w w' hinv hs hcalls h
+    intro w w' hinv h
     obtain ⟨ents, tail⟩ := c
     simp only [appendTars] at h
     cases h1 : appendTar P w ents tail with
     | none => simp [h1] at h
     | some w1 =>
       simp only [h1] at h
-      obtain ⟨htr1, hlos1, gs1, htoc1, hfa1, hag1⟩ := appendTar_spec P hc w w1 ents tail s hinv hs h1
-      have hs1 : (s → StartOK P w1) ∨ cs = [] := by
-        by_cases hnil : cs = []
-        · exact Or.inr hnil
-        · left
-          intro h
-          rcases hcalls h with h0 | hlen
-          · exact Or.inl h0
-          · simp at hlen
-            exact absurd hlen hnil
-      rcases hs1 with hs1 | hnil
-      · have hcalls' : s → P.minChunk = 0 ∨ cs.length ≤ 1 := by
-          intro h
-          rcases hcalls h with h0 | hlen
-          · exact Or.inl h0
-          · right; simp at hlen; simp [hlen]
-        obtain ⟨htr, hlos, gs, htoc, hfa, hag⟩ := ih w1 w' htr1.inv hs1 hcalls' h
-        refine ⟨?_, ?_, gs1 ++ gs, ?_, ?_, ?_⟩
-        · simpa [callStream] using Tr.trans htr1 htr
-        · intro hl e he
-          simp [callEnts] at he
-          rcases he with he | he
-          · exact hlos1 hl e he
-          · exact hlos hl e he
-        · rw [htoc, htoc1]; simp
-        · simp only [callEnts, keep_append]
-          exact forall2_append hfa1 hfa
-        · intro h
-          simp only [List.flatten_append, callEnts]
-          apply AllGood.append
-          · exact (hag1 h).mono htr.ext (fun x hx => by simp [hx])
-          · exact (hag h).mono (Ext.refl _) (fun x hx => by simp [hx])
-      · subst hnil
-        simp [appendTars] at h
-        subst h
-        refine ⟨by simpa [callStream] using htr1, ?_, gs1, htoc1, ?_, ?_⟩
-        · intro hl e he
-          simp [callEnts] at he
-          exact hlos1 hl e he
-        · simpa [callEnts] using hfa1
-        · simpa [callEnts] using hag1
+      obtain ⟨htr1, hlos1, gs1, htoc1, hfa1, hag1⟩ := appendTar_spec P hc w w1 ents tail s hinv h1
+      obtain ⟨htr, hlos, gs, htoc, hfa, hag⟩ := ih w1 w' htr1.inv h
+      refine ⟨?_, ?_, gs1 ++ gs, ?_, ?_, ?_⟩
+      · simpa [callStream] using Tr.trans htr1 htr
+      · intro hl e he
+        simp [callEnts] at he
+        rcases he with he | he
+        · exact hlos1 hl e he
+        · exact hlos hl e he
+      · rw [htoc, htoc1]; simp
+      · simp only [callEnts, keep_append]
+        exact forall2_append hfa1 hfa
+      · intro h
+        simp only [List.flatten_append, callEnts]
+        apply AllGood.append
+        · exact (hag1 h).mono htr.ext (fun x hx => by simp [hx])
+        · exact (hag h).mono (Ext.refl _) (fun x hx => by simp [hx])
 
 theorem length_expect {data : Bytes} {x : TocEnt}
     (h : x.chunkOffset + effSize x data.length ≤ data.length) :
@@ -1052,7 +1019,7 @@ theorem partOK_of_appendTar (P : Params) (hc : 0 < P.chunk) (f c : List Nat) (p 
     (h : appendTar P { orcF := f, orcC := c } p [] = some w) : PartOK w p := by
   have hinv := inv_fresh f c
   obtain ⟨htr, _, gs, htoc, hfa, hag⟩ :=
-    appendTar_spec P hc _ w p [] True hinv (fun _ => Or.inr ⟨rfl, rfl⟩) h
+    appendTar_spec P hc _ w p [] True hinv h
   refine ⟨htr.inv, ?_, ⟨gs, by simpa using htoc, hfa⟩, ?_⟩
   · have := htr.stream
     simpa [W.view, lossTail] using this
@@ -1218,11 +1185,10 @@ theorem build_spec {F : Fmt} {chunk minChunk workers : Nat} {ents : List TarEnt}
       · intro hm; simp [hm] at hp; exact hp.symm
       · intro hm; simp [hm] at hp; exact hp
 
-/-- Everything a Writer run does.  `s` switches on the part that needs the `prevOffset` locals to
-be right (`MinChunkSize = 0` or a single `AppendTar` call). -/
+/-- Everything a Writer run does, for any number of `AppendTar` calls and any `MinChunkSize`. -/
 theorem writerRun_spec {P : Params} {F : Fmt} {calls : List (List TarEnt × Bytes)}
     {tocTar : List TocEnt → Bytes} {orcF orcC : List Nat} {a : Nat} {b : Blob} (hc : 0 < P.chunk)
-    (s : Prop) (hs : s → P.minChunk = 0 ∨ calls.length ≤ 1)
+    (s : Prop)
     (h : writerRun P F calls tocTar orcF orcC a = some b) :
     ∃ ms, AllPos ms ∧ streamOf ms = callStream P calls ∧
       b = writeTocAndFooter F ms (sumClen ms) b.toc (tocTar b.toc) a (streamOf ms) ∧
@@ -1236,7 +1202,7 @@ theorem writerRun_spec {P : Params} {F : Fmt} {calls : List (List TarEnt × Byte
     simp only [hw] at h
     simp at h
     obtain ⟨htr, hlos, gs, htoc, hfa, hag⟩ :=
-      appendTars_spec P hc s calls _ w (inv_fresh orcF orcC) (fun _ => Or.inr ⟨rfl, rfl⟩) hs hw
+      appendTars_spec P hc s calls _ w (inv_fresh orcF orcC) hw
     have hcl := closeGz_tr htr.inv
     have hview := closeGz_view_closed w
     have htoc' : w.toc = gs.flatten := by simpa using htoc
